@@ -7,6 +7,7 @@ import Bluebell.PreParse
 import Bluebell.Eid
 import Bluebell.Types
 import Bluebell.Convert
+import Bluebell.Unparse
 /-! Request dispatcher for the line-protocol driver (not part of the proof library's trusted
 statements; it only exposes the model's executable definitions). -/
 open Lean
@@ -133,6 +134,9 @@ def handle (j : Json) : Json :=
       Json.mkObj [("tree", jsonOfXml x), ("mapping", Json.arr (m.map fun (a, b) => Json.arr #[.str a, .str b]).toArray)]
   | "cleannum" => Json.mkObj [("out", Json.str (cleanNum (getStr j "num")))]
   | "convert" => resJson (convert (urisOf j) (getStr j "prefix") (getStr j "text") (getStr j "root"))
+  | "unparse" =>
+      let r := unparse (xmlOfJson (j.getObjValD "tree"))
+      Json.mkObj [("text", Json.str r.1), ("tree", jsonOfXml r.2)]
   | "history" => handleHistory j
   | "todict" => handleToDict j
   | "preparse" => Json.mkObj [("out", Json.str (String.ofList (preParse (getNat j "n") (getStr j "text").toList)))]
